@@ -395,6 +395,21 @@ def mergeJoinOp (id : Nat) (nL nR : Nat) (outs : List Nat) : OpM Ck where
       .ok ((List.range outs.length).map fun i => ⟨id, i, (outs[i]?).getD 0, true⟩)
     else .ok [⟨id, 0, 0, false⟩]
 
+/-- The writer of `COPY … TO` (`CopyToFileExecutor` + its blocking writer thread): every chunk is
+written (`writeErr = some j`: the write of chunk `j` fails), then the writer **finishes** — flushes
+what is still buffered (`flushErr = some e`: that flush fails) — and only then the row count is
+reported. -/
+def copyToOp (id : Nat) (writeErr : Option Nat) (flushErr : Option Nat) : Op1 Ck where
+  σ := Nat × Nat
+  init := (0, 0)
+  ph := {
+    stopBefore := fun _ => false
+    onChunk := fun s c => if writeErr = some s.1 then .error 3 else .ok ((s.1 + 1, s.2 + c.card), [])
+    stopAfter := fun _ => false }
+  onEnd := fun s => match flushErr with
+    | some e => .error e
+    | none => .ok [⟨id, s.2, 1, true⟩]
+
 /-- INSERT / DELETE over token chunks: never fails by itself in the generated cases. -/
 def dmlCk (id : Nat) : Dml Ck where
   check := fun _ => none
